@@ -125,7 +125,8 @@ func checkC14(e *RunEnv) *CheckResult {
 				{Write("a", "staged change\n"), Run("add", "a")},
 				{Write("a", "worktree change\n"), Write("untracked", "u\n")},
 				{Run("branch", "other"), Run("switch", "other"), Write("a", "other\n"), Run("add", "a"), Run("commit", "-m", "on other"), Run("switch", "main")},
-				{Run("branch", "twin"), Run("switch", "twin")},
+				{Run("branch", "dev"), Run("switch", "dev")},
+				{Write(".goitignore", "**/build\n*.c++\nnotes[1\n"), Write("x.c++", "x\n")},
 				{Run("rm", "a")}, // the staging area emptied: the history is unchanged
 				{Write("a", "hdr\n"), Run("add", "a"), Run("commit", "-m", "subject\nparent "+strings.Repeat("ab", 20)+"\nauthor A <a@b.co> 1 +0000")},
 			}
